@@ -52,6 +52,12 @@ Fixpoint last_verdict (hist_rev : list rtev) (p : id) : option bool :=
   | e :: r => if readmits e p then Some true else if evicts e p then Some false else last_verdict r p
   end.
 
+Definition ev_peer (e : rtev) : id :=
+  match e with PeerChange p _ | ProbeDone p _ | QueryOk p | QueryFail p _ | PingFail p | PingOk p => p end.
+
+(* members proved themselves and were not evicted since; conversely (the table
+   never rejects in these runs) a peer that answered and was not evicted since
+   is still a member: failures caused by cancellation evict nobody *)
 Fixpoint prop_from (hist : list rtev) (self : id) (steps : list (list rtev * list id)) : bool :=
   match steps with
   | [] => true
@@ -59,6 +65,10 @@ Fixpoint prop_from (hist : list rtev) (self : id) (steps : list (list rtev * lis
       let h := hist ++ evs in
       forallb (fun p => negb (N.eqb p self) &&
                         match last_verdict (rev h) p with Some true => true | _ => false end) snapshot
+      && forallb (fun e => match last_verdict (rev h) (ev_peer e) with
+                           | Some true => memN (ev_peer e) snapshot
+                           | _ => true
+                           end) h
       && prop_from h self rest
   end.
 
